@@ -74,6 +74,8 @@ class FrameModel:
                 e = z3.simplify(I.num(b))
                 if z3.is_int_value(e) and e.as_long() == 2:
                     return VFrame(a.t, tag='squared')
+            if isinstance(op, ast.Add) and I.spec_mode and isinstance(a, VFrame) and isinstance(b, VFrame):
+                return VFrame(z3.Concat(a.t, b.t))      # specification only: row concatenation
             raise Unsupported('frame operator %s' % type(op).__name__)
 
         def split(I, t, n):
